@@ -926,3 +926,371 @@ Section EpanEstimate.
       intros t Ht. rewrite epan_pdf_outside by (right; exact Ht). reflexivity.
   Qed.
 End EpanEstimate.
+
+(* ====================================================================== *)
+(* 7. KDE.PDF / KDE.CDF with the Epanechnikov kernel, per boundary setting  *)
+(* ====================================================================== *)
+Section EpanKDE.
+  Variable k : kde.
+  Hypothesis ok : kde_ok k.
+  Hypothesis kern : k_kernel k = KEpan.
+
+  (* no boundary: the weighted average of the kernel centred at each sample value *)
+  Theorem kde_unbounded_is_average x : k_b k = BNone ->
+    exists p c, kde_pdf k x = Some (XFin p) /\ kde_cdf k x = Some (XFin c) /\
+                p == kde_f k x /\ c == kde_F k x.
+  Proof.
+    intro B. rewrite kde_pdf_epan, kde_cdf_epan by assumption. rewrite B.
+    cbn [reflect_pdf reflect_cdf option_map].
+    eexists; eexists; repeat split; [apply y_is_f | apply Y_is_F]; exact ok.
+  Qed.
+
+  (* support [m, +inf): nothing below m; inside, the estimate folded back at m *)
+  Theorem kde_lower_reflects m x : k_b k = BLower m ->
+    (x < m -> kde_pdf k x = Some (XFin 0) /\ kde_cdf k x = Some (XFin 0)) /\
+    (m <= x -> exists p c, kde_pdf k x = Some (XFin p) /\ kde_cdf k x = Some (XFin c) /\
+               p == kde_f k x + kde_f k (2 * m - x) /\ c == kde_F k x - kde_F k (2 * m - x)).
+  Proof.
+    intro B. rewrite kde_pdf_epan, kde_cdf_epan by assumption. rewrite B.
+    cbn [reflect_pdf reflect_cdf option_map]. split; intro H.
+    - apply Qltb_true in H. rewrite H. split; reflexivity.
+    - apply Qltb_false in H. rewrite H. cbn [option_map].
+      eexists; eexists; repeat split; rewrite ?y_is_f, ?Y_is_F by exact ok; reflexivity.
+  Qed.
+  Theorem kde_lower_cdf_at_min m : k_b k = BLower m ->
+    exists c, kde_cdf k m = Some (XFin c) /\ c == 0.
+  Proof.
+    intro B. destruct (kde_lower_reflects m m B) as [_ H].
+    destruct (H (Qle_refl m)) as (p & c & _ & C & _ & E). exists c. split; [exact C|].
+    rewrite E, (kde_F_comp k (2 * m - m) m) by ring. ring.
+  Qed.
+
+  (* support (-inf, M): density 0 and distribution function 1 from M on *)
+  Theorem kde_upper_reflects M x : k_b k = BUpper M ->
+    (M <= x -> kde_pdf k x = Some (XFin 0) /\ kde_cdf k x = Some (XFin 1)) /\
+    (x < M -> exists p c, kde_pdf k x = Some (XFin p) /\ kde_cdf k x = Some (XFin c) /\
+               p == kde_f k x + kde_f k (2 * M - x) /\ c == kde_F k x + (1 - kde_F k (2 * M - x))).
+  Proof.
+    intro B. rewrite kde_pdf_epan, kde_cdf_epan by assumption. rewrite B.
+    cbn [reflect_pdf reflect_cdf option_map]. split; intro H.
+    - apply Qle_bool_iff in H. rewrite H. split; reflexivity.
+    - apply Qle_bool_false in H. rewrite H. cbn [option_map].
+      eexists; eexists; repeat split; rewrite ?y_is_f, ?Y_is_F by exact ok; reflexivity.
+  Qed.
+  (* the value 1 returned from M on continues the inside formula: F(M) + 1 - F(2M - M) = 1 *)
+  Theorem kde_upper_cdf_at_max M : kde_F k M + (1 - kde_F k (2 * M - M)) == 1.
+  Proof. rewrite (kde_F_comp k (2 * M - M) M) by ring. ring. Qed.
+
+  (* support [m, M) with the data inside: the estimate folded back at BOTH boundaries.
+     The value the model computes with its finite fuel is the symmetric image sum of EVERY
+     order N >= k_fuel, i.e. the full two-sided infinite image sum. *)
+  Theorem kde_both_is_fold m M x : k_b k = BBoth m M -> pairs_within m M (kde_ps k) ->
+    (x < m -> kde_pdf k x = Some (XFin 0) /\ kde_cdf k x = Some (XFin 0)) /\
+    (M <= x -> kde_pdf k x = Some (XFin 0) /\ kde_cdf k x = Some (XFin 1)) /\
+    (m <= x -> x < M -> exists p c, kde_pdf k x = Some (XFin p) /\ kde_cdf k x = Some (XFin c) /\
+       forall N, (k_fuel k <= N)%nat ->
+         p == fold_pdf (kde_f k) m M N x /\ c == fold_cdf (kde_F k) m M N x).
+  Proof.
+    intros B Hin. rewrite kde_pdf_epan, kde_cdf_epan by assumption. rewrite B.
+    assert (mM : m <= M).
+    { pose proof (kde_ps_ok k ok) as [Hne _]. destruct (kde_ps k) as [|p0 l]; [congruence|].
+      inversion Hin; subst. lra. }
+    cbn [reflect_pdf reflect_cdf]. split; [|split].
+    - intro H. apply Qltb_true in H. rewrite H. split; reflexivity.
+    - intro H. assert (H' : Qltb x m = false) by (apply Qltb_false; lra).
+      apply Qle_bool_iff in H. rewrite H, H', orb_true_r. split; reflexivity.
+    - intros H1 H2. assert (H1' : Qltb x m = false) by (apply Qltb_false; lra).
+      assert (H2' : Qle_bool M x = false) by (apply Qle_bool_false; lra).
+      rewrite H1', H2'. cbn [orb].
+      assert (Fu : k_fuel k = img_fuel (k_h k) m M) by (unfold k_fuel; rewrite B, kern; reflexivity).
+      assert (hp : 0 < k_h k) by apply ok.
+      destruct (img_fuel_enough (k_h k) m M) as [K1 K2]; [lra | lra |].
+      set (K0 := (img_fuel (k_h k) m M - 3)%nat) in *.
+      destruct (two_series_pdf_is_fold (kde_ps k) (k_h k) m M x hp Hin (conj H1 (Qlt_le_weak _ _ H2))
+                  (mix (epan_pdf (k_h k)) (k_xs k) (k_ws k))) with (K0 := K0) (fuel := k_fuel k)
+        as [p [P1 P2]].
+      { intro z. rewrite y_is_f by exact ok. apply kde_f_nonneg, ok. }
+      { intros s t E. rewrite !y_is_f by exact ok. apply kde_f_comp, E. }
+      { intro z. rewrite y_is_f by exact ok. apply kde_f_zero, ok. }
+      { exact K2. }
+      { rewrite Fu. exact K1. }
+      destruct (two_series_cdf_is_fold (kde_ps k) (k_h k) m M x hp Hin (conj H1 (Qlt_le_weak _ _ H2))
+                  K0 K2 (mix (epan_cdf (k_h k)) (k_xs k) (k_ws k))) with (fuel := k_fuel k)
+        as [c [C1 C2]].
+      { intros s t E. rewrite !Y_is_F by exact ok. apply kde_F_comp, E. }
+      { intros a b L. rewrite !Y_is_F by exact ok. apply kde_F_flat; [exact ok | exact L]. }
+      { rewrite Fu. exact K1. }
+      exists p, c. rewrite P1, C1. repeat split.
+      + rewrite (P2 N) by lia. apply fold_pdf_ext. intro z. apply y_is_f, ok.
+      + rewrite (C2 N) by lia. apply fold_cdf_ext. intro z. apply Y_is_F, ok.
+  Qed.
+
+  (* at BoundaryMin the folded distribution function is 0, at BoundaryMax it has reached 1:
+     the guard values continue the inside formula *)
+  Theorem kde_both_cdf_ends m M N : k_b k = BBoth m M -> pairs_within m M (kde_ps k) -> m < M ->
+    (k_fuel k <= N)%nat ->
+    fold_cdf (kde_F k) m M N m == 0 /\ fold_cdf (kde_F k) m M N M == 1.
+  Proof.
+    intros B Hin mM L. split.
+    - apply fold_cdf_at_min. apply kde_F_comp.
+    - apply (fold_cdf_at_max _ m M (k_h k)).
+      + apply kde_F_comp.
+      + intros z Hz. apply (kde_F_left k ok m M); assumption.
+      + intros z Hz. apply (kde_F_right k ok m M); assumption.
+      + lra.
+      + assert (hp : 0 < k_h k) by apply ok.
+        destruct (img_fuel_enough (k_h k) m M) as [K1 K2]; [lra | lra |].
+        assert (Fu : k_fuel k = img_fuel (k_h k) m M) by (unfold k_fuel; rewrite B, kern; reflexivity).
+        set (K0 := (img_fuel (k_h k) m M - 3)%nat) in *.
+        assert (Qofnat K0 <= Qofnat N).
+        { unfold Qofnat. rewrite <- Zle_Qle. lia. }
+        unfold img_d, period in *. nra.
+  Qed.
+End EpanKDE.
+
+(* ====================================================================== *)
+(* 8. one formula for all boundary settings, and the laws of a distribution *)
+(* ====================================================================== *)
+(* the estimate the property describes, for an unbounded pair (f, F) and image order N *)
+Definition pdf_spec (f : Q -> Q) (b : bconf) (N : nat) (x : Q) : Q :=
+  match b with
+  | BLower m => if Qltb x m then 0 else f x + f (2 * m - x)
+  | BUpper M => if Qle_bool M x then 0 else f x + f (2 * M - x)
+  | BBoth m M => if Qltb x m || Qle_bool M x then 0 else fold_pdf f m M N x
+  | _ => f x
+  end.
+Definition cdf_spec (F : Q -> Q) (b : bconf) (N : nat) (x : Q) : Q :=
+  match b with
+  | BLower m => if Qltb x m then 0 else F x - F (2 * m - x)
+  | BUpper M => if Qle_bool M x then 1 else F x + (1 - F (2 * M - x))
+  | BBoth m M => if Qltb x m then 0 else if Qle_bool M x then 1 else fold_cdf F m M N x
+  | _ => F x
+  end.
+
+Lemma sym_sum_nonneg t N : (forall n, 0 <= t n) -> 0 <= sym_sum t N.
+Proof.
+  intro H. induction N as [|N IH]; cbn [sym_sum]; [apply H|].
+  pose proof (H (Z.of_nat (S N))). pose proof (H (- Z.of_nat (S N))%Z). lra.
+Qed.
+Lemma sym_sum_le s t N : (forall n, s n <= t n) -> sym_sum s N <= sym_sum t N.
+Proof.
+  intro H. induction N as [|N IH]; cbn [sym_sum]; [apply H|].
+  pose proof (H (Z.of_nat (S N))). pose proof (H (- Z.of_nat (S N))%Z). lra.
+Qed.
+
+Section SpecLaws.
+  Variables f F : Q -> Q.
+  Hypothesis f_nonneg : forall z, 0 <= f z.
+  Hypothesis F_mono : forall s t, s <= t -> F s <= F t.
+  Hypothesis F_range : forall z, 0 <= F z /\ F z <= 1.
+
+  Lemma fold_pdf_nonneg m M N x : 0 <= fold_pdf f m M N x.
+  Proof.
+    unfold fold_pdf. apply sym_sum_nonneg. intro n.
+    pose proof (f_nonneg (x + inject_Z n * period m M)).
+    pose proof (f_nonneg (2 * m - x + inject_Z n * period m M)). lra.
+  Qed.
+  Lemma fold_cdf_mono m M N a b : a <= b -> fold_cdf F m M N a <= fold_cdf F m M N b.
+  Proof.
+    intro L. unfold fold_cdf. apply sym_sum_le. intro n.
+    pose proof (F_mono (a + inject_Z n * period m M) (b + inject_Z n * period m M)).
+    pose proof (F_mono (2 * m - b + inject_Z n * period m M) (2 * m - a + inject_Z n * period m M)). lra.
+  Qed.
+  Lemma fold_cdf_nonneg m M N x : m <= x -> 0 <= fold_cdf F m M N x.
+  Proof.
+    intro L. unfold fold_cdf. apply sym_sum_nonneg. intro n.
+    pose proof (F_mono (2 * m - x + inject_Z n * period m M) (x + inject_Z n * period m M)). lra.
+  Qed.
+
+  Variable b : bconf.
+  Variable N : nat.
+  (* doubly bounded: the images of order N cover the kernel, so the fold reaches 1 at M *)
+  Hypothesis at_max : forall m M, b = BBoth m M -> fold_cdf F m M N M == 1.
+
+  (* PDF >= 0 *)
+  Theorem pdf_spec_nonneg x : 0 <= pdf_spec f b N x.
+  Proof.
+    clear at_max. unfold pdf_spec. destruct b as [|m|M|m M|]; try apply f_nonneg.
+    - destruct (Qltb x m); [lra|]. pose proof (f_nonneg x). pose proof (f_nonneg (2 * m - x)). lra.
+    - destruct (Qle_bool M x); [lra|]. pose proof (f_nonneg x). pose proof (f_nonneg (2 * M - x)). lra.
+    - destruct (Qltb x m || Qle_bool M x); [lra | apply fold_pdf_nonneg].
+  Qed.
+
+  (* the density vanishes outside [BoundaryMin, BoundaryMax) *)
+  Theorem pdf_spec_outside x : below_min b x = true \/ from_max b x = true -> pdf_spec f b N x = 0.
+  Proof.
+    clear at_max. unfold pdf_spec, below_min, from_max. destruct b as [|m|M|m M|]; intros [H|H]; try discriminate;
+      rewrite H; try reflexivity. now rewrite orb_true_r.
+  Qed.
+
+  (* CDF is non-decreasing on the whole line ... *)
+  Theorem cdf_spec_mono x x' : x <= x' -> cdf_spec F b N x <= cdf_spec F b N x'.
+  Proof.
+    intro L. unfold cdf_spec. destruct b as [|m|M|m M|]; try (apply F_mono; exact L).
+    - destruct (Qltb x m) eqn:A, (Qltb x' m) eqn:B; qb; try lra.
+      + pose proof (F_mono (2 * m - x') x'). lra.
+      + pose proof (F_mono x x' L). pose proof (F_mono (2 * m - x') (2 * m - x)). lra.
+    - destruct (Qle_bool M x) eqn:A, (Qle_bool M x') eqn:B; qb; try lra.
+      + pose proof (F_mono x (2 * M - x)). lra.
+      + pose proof (F_mono x x' L). pose proof (F_mono (2 * M - x') (2 * M - x)). lra.
+    - specialize (at_max m M eq_refl).
+      destruct (Qltb x m) eqn:A, (Qltb x' m) eqn:B; qb; try lra.
+      + destruct (Qle_bool M x'); [lra | apply fold_cdf_nonneg; exact B].
+      + destruct (Qle_bool M x) eqn:C, (Qle_bool M x') eqn:D; qb; try lra.
+        * rewrite <- at_max. apply fold_cdf_mono. lra.
+        * apply fold_cdf_mono. exact L.
+  Qed.
+
+  (* ... from 0 to 1 *)
+  Theorem cdf_spec_range x : 0 <= cdf_spec F b N x /\ cdf_spec F b N x <= 1.
+  Proof.
+    unfold cdf_spec. destruct b as [|m|M|m M|]; try apply F_range.
+    - destruct (Qltb x m) eqn:A; qb; [lra|].
+      pose proof (F_mono (2 * m - x) x). pose proof (F_range x). pose proof (F_range (2 * m - x)). lra.
+    - destruct (Qle_bool M x) eqn:A; qb; [lra|].
+      pose proof (F_mono x (2 * M - x)). pose proof (F_range x). pose proof (F_range (2 * M - x)). lra.
+    - specialize (at_max m M eq_refl).
+      destruct (Qltb x m) eqn:A; qb; [lra|]. destruct (Qle_bool M x) eqn:C; qb; [lra|].
+      split; [apply fold_cdf_nonneg; exact A|].
+      rewrite <- at_max. apply fold_cdf_mono. lra.
+  Qed.
+
+  (* CDF is 0 below and AT BoundaryMin, 1 from BoundaryMax on *)
+  Theorem cdf_spec_ends x : (forall s t, s == t -> F s == F t) ->
+    (below_min b x = true -> cdf_spec F b N x = 0) /\
+    (from_max b x = true -> below_min b x = false -> cdf_spec F b N x = 1) /\
+    (match b with BLower m => x == m | BBoth m M => x == m /\ m < M | _ => False end ->
+     cdf_spec F b N x == 0).
+  Proof.
+    clear at_max. intro C. unfold cdf_spec, below_min, from_max. destruct b as [|m|M|m M|]; repeat split; try discriminate;
+      try contradiction; try (intro H; rewrite H; reflexivity).
+    - intro E. assert (A : Qltb x m = false) by (apply Qltb_false; lra). rewrite A.
+      rewrite (C (2 * m - x) x) by lra. ring.
+    - intros H H'. rewrite H', H. reflexivity.
+    - intros [E mM]. assert (A : Qltb x m = false) by (apply Qltb_false; lra). rewrite A.
+      assert (D : Qle_bool M x = false) by (apply Qle_bool_false; lra). rewrite D.
+      transitivity (fold_cdf F m M N m); [| apply fold_cdf_at_min; exact C].
+      unfold fold_cdf. apply sym_sum_ext. intro n.
+      rewrite (C (x + inject_Z n * period m M) (m + inject_Z n * period m M)) by lra.
+      rewrite (C (2 * m - x + inject_Z n * period m M) (2 * m - m + inject_Z n * period m M)) by lra.
+      reflexivity.
+  Qed.
+End SpecLaws.
+
+(* the model computes pdf_spec / cdf_spec of the weighted kernel average *)
+Definition bounds_ok (k : kde) : Prop :=
+  match k_b k with BBad => False | BBoth m M => m < M /\ pairs_within m M (kde_ps k) | _ => True end.
+
+Section EpanKDELaws.
+  Variable k : kde.
+  Hypothesis ok : kde_ok k.
+  Hypothesis kern : k_kernel k = KEpan.
+  Hypothesis bok : bounds_ok k.
+
+  Theorem kde_matches_spec x N : (k_fuel k <= N)%nat ->
+    exists p c, kde_pdf k x = Some (XFin p) /\ kde_cdf k x = Some (XFin c) /\
+                p == pdf_spec (kde_f k) (k_b k) N x /\ c == cdf_spec (kde_F k) (k_b k) N x.
+  Proof.
+    intro L. unfold bounds_ok in bok. destruct (k_b k) as [|m|M|m M|] eqn:B; [| | | |contradiction].
+    - destruct (kde_unbounded_is_average k ok kern x B) as (p & c & H). exists p, c. exact H.
+    - destruct (kde_lower_reflects k ok kern m x B) as [H1 H2]. cbn [pdf_spec cdf_spec].
+      destruct (Qltb x m) eqn:A; qb.
+      + destruct (H1 A) as [P C]. exists 0, 0. repeat split; auto; reflexivity.
+      + destruct (H2 A) as (p & c & H). exists p, c. exact H.
+    - destruct (kde_upper_reflects k ok kern M x B) as [H1 H2]. cbn [pdf_spec cdf_spec].
+      destruct (Qle_bool M x) eqn:A; qb.
+      + destruct (H1 A) as [P C]. exists 0, 1. repeat split; auto; reflexivity.
+      + destruct (H2 A) as (p & c & H). exists p, c. exact H.
+    - destruct bok as [mM Hin].
+      destruct (kde_both_is_fold k ok kern m M x B Hin) as (H1 & H2 & H3). cbn [pdf_spec cdf_spec].
+      destruct (Qltb x m) eqn:A; qb.
+      + destruct (H1 A) as [P C]. exists 0, 0. cbn [orb]. repeat split; auto; reflexivity.
+      + destruct (Qle_bool M x) eqn:A2; qb.
+        * destruct (H2 A2) as [P C]. exists 0, 1. cbn [orb]. repeat split; auto; reflexivity.
+        * destruct (H3 A A2) as (p & c & P & C & E). exists p, c. cbn [orb].
+          destruct (E N L) as [E1 E2]. repeat split; assumption.
+  Qed.
+
+  Let at_max : forall m M, k_b k = BBoth m M -> fold_cdf (kde_F k) m M (k_fuel k) M == 1.
+  Proof.
+    intros m M B. unfold bounds_ok in bok. rewrite B in bok. destruct bok as [mM Hin].
+    apply (kde_both_cdf_ends k ok kern m M (k_fuel k) B Hin mM). lia.
+  Qed.
+
+  (* KDE.PDF is non-negative *)
+  Theorem kde_pdf_nonneg x p : kde_pdf k x = Some (XFin p) -> 0 <= p.
+  Proof.
+    intro H. destruct (kde_matches_spec x (k_fuel k) (Nat.le_refl _)) as (p' & c' & P & _ & E & _).
+    rewrite P in H. injection H as <-. rewrite E. apply pdf_spec_nonneg. apply kde_f_nonneg, ok.
+  Qed.
+  (* KDE.CDF is non-decreasing *)
+  Theorem kde_cdf_monotone a b ca cb : a <= b ->
+    kde_cdf k a = Some (XFin ca) -> kde_cdf k b = Some (XFin cb) -> ca <= cb.
+  Proof.
+    intros L Ha Hb.
+    destruct (kde_matches_spec a (k_fuel k) (Nat.le_refl _)) as (? & ca' & _ & Ca & _ & Ea).
+    destruct (kde_matches_spec b (k_fuel k) (Nat.le_refl _)) as (? & cb' & _ & Cb & _ & Eb).
+    rewrite Ca in Ha. rewrite Cb in Hb. injection Ha as <-. injection Hb as <-. rewrite Ea, Eb.
+    apply cdf_spec_mono; auto.
+    - apply kde_F_mono, ok.
+  Qed.
+  (* ... with values in [0, 1] *)
+  Theorem kde_cdf_range x c : kde_cdf k x = Some (XFin c) -> 0 <= c /\ c <= 1.
+  Proof.
+    intro H. destruct (kde_matches_spec x (k_fuel k) (Nat.le_refl _)) as (? & c' & _ & C & _ & E).
+    rewrite C in H. injection H as <-. rewrite E.
+    apply cdf_spec_range; auto; [apply kde_F_mono, ok | apply kde_F_range, ok].
+  Qed.
+  (* CDF is 0 below and at BoundaryMin and 1 from BoundaryMax on *)
+  Theorem kde_cdf_ends x c : kde_cdf k x = Some (XFin c) ->
+    (below_min (k_b k) x = true -> c == 0) /\
+    (from_max (k_b k) x = true -> below_min (k_b k) x = false -> c == 1) /\
+    (match k_b k with BLower m => x == m | BBoth m M => x == m | _ => False end -> c == 0).
+  Proof.
+    intro H. destruct (kde_matches_spec x (k_fuel k) (Nat.le_refl _)) as (? & c' & _ & C & _ & E).
+    rewrite C in H. injection H as <-. rewrite E.
+    destruct (cdf_spec_ends (kde_F k) (k_b k) (k_fuel k) x (kde_F_comp k)) as (E1 & E2 & E3).
+    repeat split.
+    - intro A. rewrite (E1 A). reflexivity.
+    - intros A B. rewrite (E2 A B). reflexivity.
+    - intro A. apply E3. unfold bounds_ok in bok. destruct (k_b k); auto. split; [exact A | apply bok].
+  Qed.
+  (* the density is 0 outside [BoundaryMin, BoundaryMax) *)
+  Theorem kde_pdf_outside x p : kde_pdf k x = Some (XFin p) ->
+    below_min (k_b k) x = true \/ from_max (k_b k) x = true -> p == 0.
+  Proof.
+    intros H A. destruct (kde_matches_spec x (k_fuel k) (Nat.le_refl _)) as (p' & ? & P & _ & E & _).
+    rewrite P in H. injection H as <-. rewrite E, (pdf_spec_outside (kde_f k) (k_b k) (k_fuel k) x A). reflexivity.
+  Qed.
+
+  (* 0 far on the left, 1 far on the right; the kernel is compact, so EXACTLY 0 left of
+     min(data) - h and EXACTLY 1 right of max(data) + h.  (On a bounded side the limit is
+     kde_cdf_ends; here the sides that are not bounded, data inside the boundary.) *)
+  Theorem kde_cdf_limits lo hi : pairs_within lo hi (kde_ps k) ->
+    match k_b k with BNone => True | BLower m => m <= lo | BUpper M => hi <= M | _ => False end ->
+    (forall x c, x <= lo - k_h k -> kde_cdf k x = Some (XFin c) -> c == 0) /\
+    (forall x c, hi + k_h k <= x -> kde_cdf k x = Some (XFin c) -> c == 1).
+  Proof.
+    intros Hin Hb.
+    assert (hp : 0 < k_h k) by apply ok.
+    assert (lohi : lo <= hi).
+    { pose proof (kde_ps_ok k ok) as [Hne _]. destruct (kde_ps k) as [|p0 l]; [congruence|].
+      inversion Hin; subst. lra. }
+    assert (R := fun z => kde_F_range k ok z). assert (Mo := kde_F_mono k ok).
+    assert (Z0 := fun z => kde_F_left k ok lo hi z Hin). assert (Z1 := fun z => kde_F_right k ok lo hi z Hin).
+    split; intros x c Hx H;
+      destruct (kde_matches_spec x (k_fuel k) (Nat.le_refl _)) as (? & c' & _ & C & _ & E);
+      rewrite C in H; injection H as <-; rewrite E; clear E C;
+      unfold cdf_spec; destruct (k_b k) as [|m|M|m M|] eqn:B; try contradiction.
+    - apply Z0, Hx.
+    - destruct (Qltb x m) eqn:A; qb; [reflexivity|].
+      pose proof (Mo (2 * m - x) x). pose proof (R (2 * m - x)). pose proof (Z0 x Hx). lra.
+    - assert (A : Qle_bool M x = false) by (apply Qle_bool_false; lra). rewrite A.
+      rewrite (Z0 x Hx), (Z1 (2 * M - x)) by lra. ring.
+    - apply Z1, Hx.
+    - assert (A : Qltb x m = false) by (apply Qltb_false; lra). rewrite A.
+      rewrite (Z1 x Hx), (Z0 (2 * m - x)) by lra. ring.
+    - destruct (Qle_bool M x) eqn:A; qb; [reflexivity|].
+      pose proof (Mo x (2 * M - x)). pose proof (R (2 * M - x)). pose proof (Z1 x Hx). lra.
+  Qed.
+End EpanKDELaws.
